@@ -1,6 +1,7 @@
 import RepidModel.Driver.State
 import RepidModel.Worker.Chain
 import RepidModel.Pred.Worker
+import RepidModel.Worker.Runner
 
 namespace Repid.Driver
 open Repid Sexp Wire Worker
@@ -95,6 +96,15 @@ def worker : String → List Sexp → Option Sexp
     pure (ofBool (Pred.C06.successorOk (← toInt? now) per (← toInt? ts0) (← toOpt? toInt? du) (← paramsOf p)))
   | "c06.spacingOk", [a, b, per] => do
     pure (ofBool (Pred.C06.spacingOk (← toInt? a) (← toInt? b) (← toInt? per)))
+  -- (runner.accept limit maxTasks|none ((free tasks processed stop)…)) → ok | (unexplained i)
+  | "runner.accept", [limit, mx, snaps] => do
+    let snaps ← mapM? (fun x => match x with
+      | .list [f, t, p, s] => do
+        pure ({ free := ← toNat? f, tasks := ← toNat? t, processed := ← toNat? p, stop := ← toBool? s } : Runner.Snap)
+      | _ => none) snaps
+    match Runner.accept [Runner.init (← toNat? limit) (← toOpt? toNat? mx)] snaps 0 with
+    | none => pure (.atom "ok")
+    | some i => pure (.list [.atom "unexplained", ofNat i])
   -- (c16.orderOk (pre…) (ran…)) with ran = ((cb id) | (store flag))…
   | "c16.orderOk", [pre, ran] => do
     let ran ← mapM? (fun x => match x with
